@@ -2329,3 +2329,71 @@ Theorem C14_pick_example_exact : forall cap,
       pinv PZbdd s' /\ extends exz8 s' /\ pintact PZbdd exz8 s' /\ cap <= node_count s')).
 Proof. exact pick_ex_exact. Qed.
 Print Assumptions C14_pick_example_exact.
+
+(* ------------------------------------------------------------------------------------------------
+   STORECONC: OutOfMemory of `get_or_insert` in the composed model Mgr/Core.v (unique table of Conc.v
+   on the store of IndexStore.v on the allocator of Alloc.v) *)
+From OxiVerif Require Mgr.Alloc Mgr.AllocProofs Mgr.IndexStore Mgr.Core Mgr.CoreProofs Mgr.CoreThms Mgr.CoreExamples.
+
+(* the manager is intact: same entries (ids, levels, children), same hash-table edges, same nodes in
+   the store; the only count changes are the releases of the child edges the call consumed (the
+   state is the one after the thread's own ARelease of each of them); the invariant holds *)
+Theorem C14_core_goi_oom_intact : forall k terms nl c s tid lvl ch s' rs,
+  CoreProofs.KInv k terms nl c s ->
+  Core.kstep k terms nl c s (Core.KGoi tid lvl ch) = Some (s', Core.KROom, rs) ->
+  Core.k_cn s' = Conc.dec_children (Core.k_cn s) ch /\
+  Conc.cn_shape (Core.k_cn s') = Conc.cn_shape (Core.k_cn s) /\ Core.k_hd s' = Core.k_hd s /\
+  (forall j, IndexStore.nget (IndexStore.i_nodes (Core.k_i s')) j <> None <->
+             IndexStore.nget (IndexStore.i_nodes (Core.k_i s)) j <> None) /\
+  Conc.run k terms nl (Core.kproj s) (map (Conc.ARelease tid) ch) = Some (Core.kproj s') /\
+  (exists lk, rs = [IndexStore.IROom lk]) /\ CoreProofs.KInv k terms nl c s'.
+Proof. exact CoreThms.goi_oom_intact. Qed.
+Print Assumptions C14_core_goi_oom_intact.
+
+(* one thread (no slot parked with another thread): a `get_or_insert` of a node that is not in the
+   table fails IFF all capacity slots hold table entries, live or dead *)
+Theorem C14_core_goi_oom_single : forall k terms nl c s tid l lvl ch s' r rs,
+  CoreProofs.KInv k terms nl c s ->
+  nth_error (Alloc.th (IndexStore.i_al (Core.k_i s))) tid = Some l ->
+  AllocProofs.others_idle_p c (IndexStore.i_al (Core.k_i s)) tid ->
+  Core.kstep k terms nl c s (Core.KGoi tid lvl ch) = Some (s', r, rs) ->
+  Conc.find_shape (Core.k_cn s) lvl ch = None ->
+  (r = Core.KROom <-> length (Core.k_cn s) = N.to_nat (Alloc.cap c)).
+Proof. exact CoreThms.goi_oom_single. Qed.
+Print Assumptions C14_core_goi_oom_single.
+
+(* PARTIAL.  Full statement (not proved): "after a whole collection a retry succeeds iff some node
+   was dead".  Proved: the collection keeps the invariant and the retry fails iff the table still
+   fills the store.  Missing: [kproj (kcollect c t s) = collect (kproj s)] for every state (it holds
+   on the example below), which with C05_sm_collect_count gives length = number of reachable nodes *)
+Theorem C14_core_retry_after_gc_partial : forall k terms nl c t s s1,
+  CoreProofs.KInv k terms nl c s -> s1 = Core.kcollect k terms nl c t s ->
+  CoreProofs.KInv k terms nl c s1 /\
+  forall tid l lvl ch s' r rs,
+    nth_error (Alloc.th (IndexStore.i_al (Core.k_i s1))) tid = Some l ->
+    AllocProofs.others_idle_p c (IndexStore.i_al (Core.k_i s1)) tid ->
+    Core.kstep k terms nl c s1 (Core.KGoi tid lvl ch) = Some (s', r, rs) ->
+    Conc.find_shape (Core.k_cn s1) lvl ch = None ->
+    (r = Core.KROom <-> length (Core.k_cn s1) = N.to_nat (Alloc.cap c)).
+Proof. exact CoreThms.retry_after_gc_partial. Qed.
+Print Assumptions C14_core_retry_after_gc_partial.
+
+(* the example: full store, OutOfMemory (6 entries before and after, two tokens consumed), a whole
+   collection = Conc's [collect] on the projection removes the dead node, the retry gets its slot *)
+Theorem C14_core_oom_retry_example :
+  (exists s s', Core.kstep Table.KBdd CoreExamples.kx_terms 4 AllocExamples.ex_cfg s
+                  (Core.KGoi 0 0 [CoreExamples.KE 6; CoreExamples.KE 7]) = Some (s', Core.KROom, [IndexStore.IROom false]) /\
+                length (Core.k_cn s) = 6 /\ map fst (Core.k_cn s') = map fst (Core.k_cn s)) /\
+  (exists s, let s1 := Core.kcollect Table.KBdd CoreExamples.kx_terms 4 AllocExamples.ex_cfg 2 s in
+     Core.kproj s1 = ConcGc.collect Table.KBdd CoreExamples.kx_terms 4 (Core.kproj s) /\
+     map fst (Core.k_cn s1) = [7; 5; 3; 4; 2]%positive /\
+     option_map (fun x => snd (fst x))
+       (Core.krun Table.KBdd CoreExamples.kx_terms 4 AllocExamples.ex_cfg s1
+          [Core.KInternal (Alloc.AGcFlush 2); Core.KGoi 0 0 [CoreExamples.KT0; CoreExamples.KT1]]) =
+     Some [Core.KRObs (Alloc.OFlush 6); Core.KRNew 6]).
+Proof.
+  split.
+  - destruct CoreExamples.kx_oom as (s & s' & _ & A & B & C & _). exists s, s'. auto.
+  - destruct CoreExamples.kx_collect as (s & _ & A & B & _ & _ & C). exists s. auto.
+Qed.
+Print Assumptions C14_core_oom_retry_example.
